@@ -600,6 +600,7 @@ func runC14(c *Ctx, r *Rec) {
 	checkNoSecondLookup(c, r, "D3-view-values-from-entries")
 	checkResetCompleteness(c, r, "D1-reset-complete", mp)
 	checkResultsAreCollections(c, r, "D1-result-is-a-collection", mp)
+	checkCommaOkIntoCollected(c, r, "D2-assertion-keeps-collected", c.allFuncDecls("module"))
 	checkNoReadBackOfRangedMap(c, r, "D2-values-from-the-ranged-pairs", fileFuncs(c, "collection", mp))
 	checkTypeLockPairing(c, r, "D1-lock-released", mp)
 
@@ -873,7 +874,21 @@ func checkNoReadBackOfRangedMap(c *Ctx, r *Rec, rule string, fds []*ast.FuncDecl
 		if info == nil || fd.Body == nil {
 			continue
 		}
-		for _, p := range paramObjs(info, fd) {
+		// the Go maps that the function ranges over: parameters and locals alike
+		var cands []*types.Var
+		seenC := map[*types.Var]bool{}
+		ast.Inspect(fd.Body, func(x ast.Node) bool {
+			if rs, ok := x.(*ast.RangeStmt); ok {
+				if v, ok := identObj(info, rs.X).(*types.Var); ok && !seenC[v] {
+					if _, isMap := v.Type().Underlying().(*types.Map); isMap && !v.IsField() {
+						seenC[v] = true
+						cands = append(cands, v)
+					}
+				}
+			}
+			return true
+		})
+		for _, p := range cands {
 			mt, ok := p.Type().Underlying().(*types.Map)
 			if !ok {
 				continue
